@@ -45,15 +45,22 @@ static std::string toFile(std::string const& bytes) {
 }
 
 // ---- canonical printing -------------------------------------------------------------------------
+// OK n=<elements> b=<batch sizes> dim=<d | !d1,d2,.. if batches disagree | - if no batch> shape=<reported input shape | -> cls=<k|-> E=<rec;rec;..>
+//   rec (dense)  = <label>|<hex,hex,..>          label = unsigned | hex,hex,.. (vector label)
+//   rec (sparse) = <label>|<idx:hex,idx:hex,..>  stored entries in storage order, zeros dropped
 template<class V> static void denseVec(std::ostream& o, V const& v) {
 	for (std::size_t j = 0; j < v.size(); ++j) { if (j) o << ","; o << val((double)v(j)); }
 }
 template<class V> static void sparseVec(std::ostream& o, V const& v) {
-	o << "D" << v.size();
-	for (auto it = v.begin(); it != v.end(); ++it) { double x = (double)*it; if (x == 0.0) continue; o << "," << it.index() << ":" << val(x); }
+	bool f = true;
+	for (auto it = v.begin(); it != v.end(); ++it) { double x = (double)*it; if (x == 0.0) continue; if (!f) o << ","; f = false; o << it.index() << ":" << val(x); }
 }
+template<bool Sparse> struct VecPrint { template<class V> static void print(std::ostream& o, V const& v) { denseVec(o, v); } };
+template<> struct VecPrint<true> { template<class V> static void print(std::ostream& o, V const& v) { sparseVec(o, v); } };
 static void lab(std::ostream& o, unsigned int l) { o << l; }
 template<class T> static void lab(std::ostream& o, blas::vector<T> const& l) { denseVec(o, l); }
+template<class R> static void labRef(std::ostream& o, R const& l, unsigned int*) { o << (unsigned int)l; }
+template<class R, class T> static void labRef(std::ostream& o, R const& l, blas::vector<T>*) { denseVec(o, l); }
 
 template<class D> static void batchSizes(std::ostream& o, D const& d, bool& emptyBatch) {
 	o << "n=" << d.numberOfElements() << " b=";
@@ -61,40 +68,47 @@ template<class D> static void batchSizes(std::ostream& o, D const& d, bool& empt
 		std::size_t s = batchSize(d.batch(b)); if (b) o << ","; o << s; if (s == 0) emptyBatch = true;
 	}
 }
+static void dims(std::ostream& o, std::vector<std::size_t> const& ds, Shape const& sh) {
+	o << " dim=";
+	bool same = true; for (std::size_t x : ds) if (x != ds[0]) same = false;
+	if (ds.empty()) o << "-"; else if (same) o << ds[0]; else { o << "!"; for (std::size_t i = 0; i < ds.size(); ++i) { if (i) o << ","; o << ds[i]; } }
+	o << " shape="; if (sh.size() == 0) o << "-"; else o << sh.numElements();
+}
 template<class L> struct ClassCount { template<class D> static void print(std::ostream& o, D const&, bool) { o << " cls=-"; } };
 template<> struct ClassCount<unsigned int> {
 	template<class D> static void print(std::ostream& o, D const& d, bool emptyBatch) {
 		if (emptyBatch) o << " cls=?emptybatch"; else o << " cls=" << numberOfClasses(d);
 	}
 };
-template<class I, class L> static void printLabeled(std::ostream& o, LabeledData<I, L> const& d, bool sparse) {
+template<bool Sparse, class I, class L> static void printLabeled(std::ostream& o, LabeledData<I, L> const& d) {
 	bool eb = false; o << "OK "; batchSizes(o, d, eb);
-	o << " bd=";
-	for (std::size_t b = 0; b < d.numberOfBatches(); ++b) { if (b) o << ","; o << d.batch(b).input.size2(); }
+	std::vector<std::size_t> ds;
+	for (std::size_t b = 0; b < d.numberOfBatches(); ++b) ds.push_back(d.batch(b).input.size2());
+	dims(o, ds, d.inputs().shape());
 	ClassCount<L>::print(o, d, eb);
 	o << " E=";
 	bool first = true;
 	for (std::size_t b = 0; b < d.numberOfBatches(); ++b) {
-		auto batch = d.batch(b);
+		auto const& batch = d.batch(b);
 		for (std::size_t i = 0; i < batchSize(batch); ++i) {
-			auto e = getBatchElement(batch, i);
 			if (!first) o << ";"; first = false;
-			lab(o, e.label); o << "|";
-			if (sparse) sparseVec(o, e.input); else denseVec(o, e.input);
+			labRef(o, getBatchElement(batch.label, i), (L*)0); o << "|";
+			VecPrint<Sparse>::print(o, row(batch.input, i));
 		}
 	}
 }
 template<class I> static void printData(std::ostream& o, Data<I> const& d) {
 	bool eb = false; o << "OK "; batchSizes(o, d, eb);
-	o << " bd=";
-	for (std::size_t b = 0; b < d.numberOfBatches(); ++b) { if (b) o << ","; o << d.batch(b).size2(); }
+	std::vector<std::size_t> ds;
+	for (std::size_t b = 0; b < d.numberOfBatches(); ++b) ds.push_back(d.batch(b).size2());
+	dims(o, ds, d.shape());
 	o << " cls=- E=";
 	bool first = true;
 	for (std::size_t b = 0; b < d.numberOfBatches(); ++b)
 		for (std::size_t i = 0; i < d.batch(b).size1(); ++i) { if (!first) o << ";"; first = false; o << "|"; denseVec(o, row(d.batch(b), i)); }
 }
 template<class T> static void printScalar(std::ostream& o, Data<T> const& d) {
-	bool eb = false; o << "OK "; batchSizes(o, d, eb); o << " bd= cls=- E=";
+	bool eb = false; o << "OK "; batchSizes(o, d, eb); o << " dim=- shape=- cls=- E=";
 	bool first = true;
 	for (std::size_t b = 0; b < d.numberOfBatches(); ++b)
 		for (std::size_t i = 0; i < d.batch(b).size(); ++i) { if (!first) o << ";"; first = false; o << "|" << val((double)d.batch(b)(i)); }
@@ -111,11 +125,11 @@ template<class T> static void csvCase(std::ostream& o, std::string const& varian
 	} else if (variant == "cls") {
 		LabeledData<V, unsigned int> d;
 		if (file) importCSV(d, toFile(bytes), lp, sep, cm, mb); else csvStringToData(d, bytes, lp, sep, cm, mb);
-		printLabeled(o, d, false);
+		printLabeled<false>(o, d);
 	} else {
 		LabeledData<V, V> d;
 		if (file) importCSV(d, toFile(bytes), lp, nout, sep, cm, mb); else csvStringToData(d, bytes, lp, nout, sep, cm, mb);
-		printLabeled(o, d, false);
+		printLabeled<false>(o, d);
 	}
 }
 template<class T> static void sclCase(std::ostream& o, char sep, char cm, std::size_t mb, std::string const& bytes) {
@@ -125,7 +139,7 @@ template<class I, class L> static void svmCase(std::ostream& o, unsigned int hi,
 	LabeledData<I, L> d;
 	if (file) importSparseData(d, toFile(bytes), hi, bs);
 	else { std::istringstream is(bytes); importSparseData(d, is, hi, bs); }
-	printLabeled(o, d, true);
+	printLabeled<true>(o, d);
 }
 
 // ---- exporters (round trip) -----------------------------------------------------------------------
@@ -165,12 +179,12 @@ template<class T> static void xcsvCase(std::ostream& o, std::string const& varia
 		LabeledData<V, unsigned int> d = createLabeledDataFromRange(toVecs<V>(r.in), l, mb);
 		if (file) { exportCSV(d, tmpname, lp, sep); text = slurp(tmpname); }
 		else { std::ostringstream os; detail::exportCSV_labeled(d.inputs().elements(), d.labels().elements(), os, lp, sep); text = os.str(); }
-		LabeledData<V, unsigned int> back; csvStringToData(back, text, lp, sep, '#', mb); printLabeled(imp, back, false);
+		LabeledData<V, unsigned int> back; csvStringToData(back, text, lp, sep, '#', mb); printLabeled<false>(imp, back);
 	} else {
 		LabeledData<V, V> d = createLabeledDataFromRange(toVecs<V>(r.in), toVecs<V>(r.lab), mb);
 		if (file) { exportCSV(d, tmpname, lp, sep); text = slurp(tmpname); }
 		else { std::ostringstream os; detail::exportCSV_labeled(d.inputs().elements(), d.labels().elements(), os, lp, sep); text = os.str(); }
-		LabeledData<V, V> back; csvStringToData(back, text, lp, nout, sep, '#', mb); printLabeled(imp, back, false);
+		LabeledData<V, V> back; csvStringToData(back, text, lp, nout, sep, '#', mb); printLabeled<false>(imp, back);
 	}
 	o << "X text=" << hex(text) << " " << imp.str();
 }
@@ -183,12 +197,12 @@ template<class I> static void xsvmCase(std::ostream& o, std::string const& varia
 		std::vector<unsigned int> l; for (auto const& x : r.lab) l.push_back((unsigned int)x[0]);
 		LabeledData<I, unsigned int> d = createLabeledDataFromRange(ins, l, bs);
 		exportSparseData(d, os);
-		LabeledData<I, unsigned int> back; std::istringstream is(os.str()); importSparseData(back, is, 0, bs); printLabeled(imp, back, true);
+		LabeledData<I, unsigned int> back; std::istringstream is(os.str()); importSparseData(back, is, 0, bs); printLabeled<true>(imp, back);
 	} else {
 		std::vector<RealVector> l; for (auto const& x : r.lab) l.push_back(RealVector(1, x[0]));
 		LabeledData<I, RealVector> d = createLabeledDataFromRange(ins, l, bs);
 		exportSparseData(d, os);
-		LabeledData<I, RealVector> back; std::istringstream is(os.str()); importSparseData(back, is, 0, bs); printLabeled(imp, back, true);
+		LabeledData<I, RealVector> back; std::istringstream is(os.str()); importSparseData(back, is, 0, bs); printLabeled<true>(imp, back);
 	}
 	o << "X text=" << hex(os.str()) << " " << imp.str();
 }
@@ -200,12 +214,12 @@ template<> void xsvmCase<RealVector>(std::ostream& o, std::string const& variant
 		std::vector<unsigned int> l; for (auto const& x : r.lab) l.push_back((unsigned int)x[0]);
 		LabeledData<RealVector, unsigned int> d = createLabeledDataFromRange(ins, l, bs);
 		exportSparseData(d, os);
-		LabeledData<RealVector, unsigned int> back; std::istringstream is(os.str()); importSparseData(back, is, 0, bs); printLabeled(imp, back, true);
+		LabeledData<RealVector, unsigned int> back; std::istringstream is(os.str()); importSparseData(back, is, 0, bs); printLabeled<true>(imp, back);
 	} else {
 		std::vector<RealVector> l; for (auto const& x : r.lab) l.push_back(RealVector(1, x[0]));
 		LabeledData<RealVector, RealVector> d = createLabeledDataFromRange(ins, l, bs);
 		exportSparseData(d, os);
-		LabeledData<RealVector, RealVector> back; std::istringstream is(os.str()); importSparseData(back, is, 0, bs); printLabeled(imp, back, true);
+		LabeledData<RealVector, RealVector> back; std::istringstream is(os.str()); importSparseData(back, is, 0, bs); printLabeled<true>(imp, back);
 	}
 	o << "X text=" << hex(os.str()) << " " << imp.str();
 }
@@ -251,14 +265,17 @@ static void runCase(std::ostream& o, std::vector<std::string> const& t) {
 
 int main(int argc, char** argv) {
 	if (argc < 2) return 2;
-	long limit_mb = 0; unsigned secs = 20;
-	for (int i = 2; i < argc; ++i) {
+	long limit_mb = 0; unsigned secs = 20; const char* file = 0;
+	for (int i = 1; i < argc; ++i) {
 		if (!std::strncmp(argv[i], "--as-mb=", 8)) limit_mb = std::atol(argv[i] + 8);
-		if (!std::strncmp(argv[i], "--timeout=", 10)) secs = (unsigned)std::atol(argv[i] + 10);
+		else if (!std::strncmp(argv[i], "--timeout=", 10)) secs = (unsigned)std::atol(argv[i] + 10);
+		else file = argv[i];
 	}
+	if (!file) return 2;
 	if (limit_mb > 0) { struct rlimit rl; rl.rlim_cur = rl.rlim_max = (rlim_t)limit_mb << 20; setrlimit(RLIMIT_AS, &rl); }
 	char buf[64]; std::snprintf(buf, sizeof buf, "/tmp/c19_%d.txt", (int)getpid()); tmpname = buf;
-	std::ifstream in(argv[1]);
+	std::ifstream in(file);
+	if (!in) return 2;
 	std::string line;
 	while (std::getline(in, line)) {
 		std::istringstream is(line);
